@@ -33,7 +33,7 @@ RULE = (
     "or a table with >= 2 entries is permuted"
 )
 SPACE = {
-    "quick": "drivers: (i) 2-D pad on 2-face tables linking both axes x rule pairs x fill pairs x 2-D width sets; (ii) equivalent() on all pairs of 2-3-name signatures and their renamings; (iii) Grid(ds) for COMODO/SGRID datasets with 2-4 axes; (iv) get_metric/integrate on 3-axis registries with several partitions; (v) 2-D and 3-D pad on simple grids with per-axis rules and fill values; (vi) accept/reject of consistent and inconsistent 3-face link tables under every listing order; every execution with at most 2 non-default order choices (each choice ranges over all permutations of that set / table); literal seeds 0..11",
+    "quick": "drivers: (i) 2-D pad on 2-face tables linking both axes x rule pairs x fill pairs x 2-D width sets; (ii) equivalent() on all pairs of 2-3-name signatures and their renamings; (iii) Grid(ds) for COMODO/SGRID datasets with 2-4 axes; (iv) get_metric/integrate on 3-axis registries with several partitions; (v) 2-D and 3-D pad on simple grids with per-axis rules and fill values; (vi) accept/reject of consistent and inconsistent 3-face link tables under every listing order; (vii) two-axis grid ufuncs (own and renamed dummy names, apply / decorator route) with widths and per-axis fill on both axes on 2- and 3-axis grids, arrays received by the function included; (viii) interp_like, get_metric from a corner-only measure, interp and diff-of-interp along 2-3 axes at once with per-axis rules and fill values; every execution with at most 2 non-default order choices (each choice ranges over all permutations of that set / table); literal seeds 0..11",
     "thorough": "more tables/width sets/registries; all combinations of all permutations (no deviation bound, cap 6000 executions per configuration reported if hit); literal seeds 0..47",
 }
 BOUNDS = {"quick": {"seeds": 12, "deviations": 2}, "thorough": {"seeds": 48, "deviations": None}}
@@ -357,11 +357,102 @@ def run_table(cfg):
         return "rejected"
 
 
-DRIVERS = {"pad": run_pad, "equiv": run_equiv, "comodo": run_parse, "sgrid": run_parse, "metric": run_metric, "simple": run_simple, "table": run_table}
+# ------------------------------------------------------------------ driver (vii): multi-axis grid ufuncs
+UF_SIGS = (
+    ("(X:center,Y:center)->(X:left,Y:left)", ("X", "Y")),
+    ("(lon:center,lat:center)->(lon:left,lat:left)", ("lon", "lat")),
+    ("(b:center,a:center)->(b:left,a:left)", ("b", "a")),
+)
+UF_WIDTHS = (((1, 0), (1, 0)), ((1, 1), (2, 0)))
+UF_RULES = (("fill", "fill"), ("fill", "extend"), ("extend", "fill"))
+
+
+def ufunc_configs(tier):
+    cfgs = []
+    for si in range(len(UF_SIGS)):
+        for wi in range(len(UF_WIDTHS)):
+            for ri in range(len(UF_RULES)):
+                for route in ("apply", "decorated"):
+                    for nax in (2, 3):
+                        if tier == "quick" and (si + wi + ri + (route == "apply") + nax) % 2:
+                            continue
+                        cfgs.append(("ufunc", si, wi, ri, route, nax))
+    return cfgs
+
+
+def run_ufunc(cfg):
+    from xgcm import Grid
+    from xgcm.grid_ufunc import apply_as_grid_ufunc, as_grid_ufunc
+
+    _, si, wi, ri, route, nax = cfg
+    axes = ("X", "Y", "Z")[:nax]
+    n = 3
+    ds = xr.Dataset(coords={f"{a.lower()}c": (f"{a.lower()}c", np.arange(n) + 0.5) for a in axes} | {f"{a.lower()}g": (f"{a.lower()}g", np.arange(n) * 1.0) for a in axes})
+    g = Grid(ds, coords={a: {"center": f"{a.lower()}c", "left": f"{a.lower()}g"} for a in axes}, periodic=False, autoparse_metadata=False)
+    dims = [f"{a.lower()}c" for a in axes][::-1]
+    da = xr.DataArray(np.arange(n ** nax, dtype=float).reshape((n,) * nax) ** 2 + 1, dims=dims)
+    sig, (d1, d2) = UF_SIGS[si]
+    (w1, w2) = UF_WIDTHS[wi]
+    bw = {d1: w1, d2: w2}
+    got = []
+
+    def f(a):
+        got.append(np.array(a))
+        return a[..., w1[0]: a.shape[-2] - w1[1], w2[0]: a.shape[-1] - w2[1]]
+
+    kw = dict(boundary={"X": UF_RULES[ri][0], "Y": UF_RULES[ri][1]}, fill_value={"X": 1.0, "Y": 2.0})
+    if route == "apply":
+        r = apply_as_grid_ufunc(f, da, axis=[("X", "Y")], grid=g, signature=sig, boundary_width=bw, **kw)
+    else:
+        r = as_grid_ufunc(signature=sig, boundary_width=bw)(f)(g, da, axis=[("X", "Y")], **kw)
+    return digest(tuple(r.dims), r.values, *got)
+
+
+# ------------------------------------------------------------------ driver (viii): moves along several axes at once
+def move_configs(tier):
+    cfgs = []
+    for nax in (2, 3):
+        for ri in range(3):
+            for what in ("interp_like", "get_metric", "interp", "derivative-chain"):
+                cfgs.append(("move", nax, ri, what))
+    return cfgs
+
+
+def run_move(cfg):
+    from xgcm import Grid
+
+    _, nax, ri, what = cfg
+    axes = ("X", "Y", "Z")[:nax]
+    n = 3
+    ds = xr.Dataset(coords={f"{a.lower()}c": (f"{a.lower()}c", np.arange(n) + 0.5) for a in axes} | {f"{a.lower()}g": (f"{a.lower()}g", np.arange(n) * 1.0) for a in axes})
+    gdims = [f"{a.lower()}g" for a in axes]
+    cdims = [f"{a.lower()}c" for a in axes]
+    # a cell measure known on the corners only
+    ds["corner_measure"] = (gdims, (np.arange(n ** nax, dtype=float).reshape((n,) * nax) + 1) ** 1.5)
+    g = Grid(ds, coords={a: {"center": f"{a.lower()}c", "left": f"{a.lower()}g"} for a in axes}, periodic=False, autoparse_metadata=False,
+             metrics={tuple(axes): ["corner_measure"]},
+             boundary={a: ("fill", "extend", "fill")[(i + ri) % 3] for i, a in enumerate(axes)},
+             fill_value={a: (3.0, 0.0, -7.0)[i] for i, a in enumerate(axes)})
+    da = xr.DataArray(np.arange(n ** nax, dtype=float).reshape((n,) * nax) ** 2 + 1, dims=cdims)
+    like = xr.DataArray(np.zeros((n,) * nax), dims=gdims)
+    rules = {a: ("fill", "extend", "fill")[(i + ri) % 3] for i, a in enumerate(axes)}
+    fills = {a: (3.0, 0.0, -7.0)[i] for i, a in enumerate(axes)}
+    if what == "interp_like":
+        r = g.interp_like(da, like, boundary=rules, fill_value=fills)
+    elif what == "get_metric":
+        r = g.get_metric(da, axes)
+    elif what == "interp":
+        r = g.interp(da, list(axes), boundary=rules, fill_value=fills)
+    else:
+        r = g.diff(g.interp(da, list(axes)), list(axes))
+    return digest(tuple(r.dims), r.values)
+
+
+DRIVERS = {"pad": run_pad, "equiv": run_equiv, "comodo": run_parse, "sgrid": run_parse, "metric": run_metric, "simple": run_simple, "table": run_table, "ufunc": run_ufunc, "move": run_move}
 
 
 def all_configs(tier):
-    return pad_configs(tier) + sig_pairs(tier) + parse_configs(tier) + metric_configs(tier) + simple_configs(tier) + table_configs(tier)
+    return pad_configs(tier) + sig_pairs(tier) + parse_configs(tier) + metric_configs(tier) + simple_configs(tier) + table_configs(tier) + ufunc_configs(tier) + move_configs(tier)
 
 
 def cfg_json(cfg):
